@@ -18,7 +18,7 @@ def build():
                 property_id=p, quick_cmd='./check %s --quick' % p, thorough_cmd='./check %s --thorough' % p,
                 evidence_file='evidence/%s.json' % p, replay_cmd_template='./check %s --replay {path}' % p,
                 engine='pyvc', level_claimed=dict(category=c.get('category', 'proof'), text=c['text'], design_ref=c.get('ref', 'DESIGN.md section 8')),
-                level_note=c['note'], technique=c.get('technique', 'contract-based deductive verification: sidecar contracts on the real functions, VCs generated from the AST of /repo, discharged by z3/cvc5')))
+                level_note=c['note'], technique=c.get('technique', 'contract-based deductive verification: sidecar contracts on the real functions, VCs generated from the AST of /repo, discharged by z3/cvc5; bounded stand-ins (labelled) for units outside the executor')))
     na = [dict(property_id=p, reason=NA.get(p, NA_REASON)) for p in props if p not in C]
     m = dict(version=1, setup_cmd='./setup.sh',
              hooks=dict(guard='AFKAK_VERIF', enable='none needed: contracts are sidecars under /verif/contracts; /repo is read, parsed and executed unmodified (no hook commits)',
